@@ -5,7 +5,7 @@
     instance on every run. *)
 From Coq Require Import NArith ZArith QArith Qabs List Bool.
 From SV Require Import Bin.Struct Fmt.DmxCodes Fmt.DmxCodesProofs Fmt.DmxBin Fmt.DmxBinProofs Fmt.DmxKv1 Fmt.DmxKv1Proofs
-  Fmt.DmxScalar Fmt.DmxScalarProofs Fmt.DmxTyped Fmt.DmxTypedProofs Text.Str Text.Escape Text.Tokenizer Text.TokGen Fmt.DmxKv2 Fmt.DmxKv2Proofs Fmt.DmxKv2Nested Fmt.DmxKv2NestedProofs Fmt.DmxKv2Inst Num.Dec6 Fmt.DmxValText Fmt.DmxValTextProofs Fmt.DmxHeader Fmt.DmxHeaderProofs Fmt.DmxMembers Fmt.DmxMembersProofs Gen.DmxCodes_gen.
+  Fmt.DmxScalar Fmt.DmxScalarProofs Fmt.DmxTyped Fmt.DmxTypedProofs Text.Str Text.Escape Text.Tokenizer Text.TokGen Fmt.DmxKv2 Fmt.DmxKv2Proofs Fmt.DmxKv2Nested Fmt.DmxKv2NestedProofs Fmt.DmxKv2Inst Num.Dec6 Fmt.DmxValText Fmt.DmxValTextProofs Fmt.DmxHeader Fmt.DmxHeaderProofs Fmt.DmxMembers Fmt.DmxMembersProofs Fmt.DmxKv1Sel Fmt.DmxKv1SelProofs Gen.DmxCodes_gen.
 Import ListNotations.
 
 (** The premises of the theorems below, for the configuration generated from today's source.  The check proves
@@ -16,7 +16,8 @@ Definition c14_instance_premises : bool :=
   kv2_tables_ok gen_tables && kv2_opts_ok gen_kv2_opts && vtnames_ok gen_tables gen_fold gen_vtnames &&
   float_text_cfg_ok gen_float_fmt && vec_text_components_ok gen_vec_text_written gen_vec_text_read &&
   color_text_ok gen_color_text_written gen_color_text_read &&
-  hdr_bin_ok gen_hdr && hdr_kv2_ok gen_hdr && hdr_modes_ok gen_hdr && cnt_cfg_ok gen_cnt.
+  hdr_bin_ok gen_hdr && hdr_kv2_ok gen_hdr && hdr_modes_ok gen_hdr && cnt_cfg_ok gen_cnt &&
+  kv1_sel_ok gen_kv1_reserved_sel gen_kv1_dup_sel.
 
 (** The attribute type byte: encode then decode gives back the value type and the scalar/array flag, for all 14
     types and both shapes. *)
@@ -405,3 +406,28 @@ Theorem attr_loop_on_real_name_refuted :
   (let m := run_ops ascii_lower [OSet [78; 65; 77; 69]%N (VStr (Scalar [120]%N))] (init_members [110]%N) in
    map fst m = [s_name] /\ count_written real_name_cnt m = 0%Z /\ length (records (cc_write_filter real_name_cnt) m) = 1%nat).
 Proof. exact write_filter_on_real_name_refuted. Qed.
+
+(** * from_kv1: which name of a leaf its two tests read (round 3)
+
+    [from_kv1_sel] is from_kv1 with the name read by the reserved-name test and by the duplicate-leaf test as parameters
+    (casefolded [child.name] / case-preserved [child.real_name]; read from the source).  With both on the casefolded name
+    it is [from_kv1], so the bridge theorem holds for it. *)
+Theorem kv1_bridge_roundtrip_by_name_selection : forall fold cfg rs ds,
+  kv1_cfg_ok cfg = true -> fold_ok fold cfg -> kv1_sel_ok rs ds = true ->
+  forall t, wf_kv t = true -> to_kv1 fold cfg (from_kv1_sel fold cfg rs ds t) = Some t.
+Proof. exact kv1_bridge_roundtrip_sel. Qed.
+
+(** The reserved-name test on the case-preserved name (the class of seeded fault c14_4): block "Entity" { "Name" "Fred" }
+    — the leaf is inlined, overwrites the element's own name, and the block comes back named "Fred". *)
+Theorem kv1_reserved_test_on_real_name_is_refuted :
+  kv1_cfg_ok spelled_cfg = true /\ wf_kv entity_tree = true /\
+  to_kv1 kv_lower spelled_cfg (from_kv1_sel kv_lower spelled_cfg NFolded NFolded entity_tree) = Some entity_tree /\
+  to_kv1 kv_lower spelled_cfg (from_kv1_sel kv_lower spelled_cfg NReal NFolded entity_tree)
+  = Some (KBlock (Some [70; 114; 101; 100]%N) [KLeaf [78; 97; 109; 101]%N [70; 114; 101; 100]%N]).
+Proof. exact kv1_reserved_test_on_real_name_refuted. Qed.
+
+(** The duplicate test on the case-preserved name: "Key" and "KEY" are both inlined under one dict key, one is lost. *)
+Theorem kv1_duplicate_test_on_real_name_is_refuted :
+  to_kv1 kv_lower spelled_cfg (from_kv1_sel kv_lower spelled_cfg NFolded NFolded dup_tree) = Some dup_tree /\
+  to_kv1 kv_lower spelled_cfg (from_kv1_sel kv_lower spelled_cfg NFolded NReal dup_tree) = Some (KBlock (Some [66]%N) [KLeaf [75; 69; 89]%N [50]%N]).
+Proof. exact kv1_duplicate_test_on_real_name_refuted. Qed.
